@@ -272,6 +272,27 @@ func genFit(c *gal.Ctx) {
 	addFit(c, "fit_rv_edge", []string{"KCoversRV", "KCoversFV"}, 0xFFFD0000, []fe{hdr(2), {T: 7, A: 0xFFFFFFF0, S: 1, V: 0x100}})
 	addFit(c, "fit_rv_edge", []string{"KCoversRV", "KCoversFV"}, 0xFFFD0000, []fe{hdr(2), {T: 7, A: 0xFFFFFFC0, S: 1, V: 0x100}})
 	addFit(c, "fit_rv_edge", []string{"KCoversRV", "KCoversFV"}, 0xFFFD0000, []fe{hdr(2), {T: 7, A: 0xFFFFFFF1, S: 1, V: 0x100}})
+	// exact-boundary families: module start at lo-16 / lo-12 / lo-1 / lo / lo+1, size k paragraphs, so that
+	// the end falls on hi-1, hi, hi+1 ... (end == hi needs an address that is not 16-byte aligned)
+	for _, lo := range []uint64{0xFFFFFFF0, 0xFFFFFFC0} {
+		for _, d1 := range []int64{-16, -12, -11, -13, -1, 0, 1} {
+			for k := uint32(0); k < 3; k++ {
+				addFit(c, "fit_vector_edge", []string{"KCoversRV", "KCoversFV"}, 0xFFFD0000, []fe{hdr(2), {T: 7, A: uint64(int64(lo) + d1), S: k, V: 0x100}})
+			}
+		}
+	}
+	for _, n := range []int{2, 3} {
+		for _, d1 := range []int64{-16, -1, 0, 1} {
+			for k := -1; k < 3; k++ {
+				ptr := uint32(0xFFFD0040)
+				t := []fe{hdr(n), {T: 7, A: uint64(int64(ptr) + d1), S: uint32(n + k), V: 0x100}}
+				if n == 3 {
+					t = append(t, fe{T: 1, A: 0xFFE00000, S: 0, V: 0x100})
+				}
+				addFit(c, "fit_table_edge", []string{"KCoversFIT"}, ptr, t)
+			}
+		}
+	}
 	addFit(c, "fit_empty", allKs, 0xFFFD0000, nil)
 
 	// --- random grid layouts: touching / overlapping / nested / reordered are all frequent
